@@ -82,7 +82,7 @@ func cfgFor(tier string) tierCfg {
 	if tier == "thorough" {
 		return tierCfg{Depth: 4, CoreDepth: 5, Core: coreThorough, MaxBits: 12,
 			Masks:    []int{0x01, 0x02, 0x04, 0x08, 0x10, 0x20, 0x40, 0x80, 0xFF, 0x55, 0x03},
-			HdrMasks: allMasks(), Budget: 13 * time.Minute,
+			HdrMasks: allMasks(), Budget: 17 * time.Minute,
 			G2: g2For(tier), G2Bases: g2Bases(tier), G2Long: true}
 	}
 	return tierCfg{Depth: 3, CoreDepth: 4, Core: coreShapes, MaxBits: 10, Masks: []int{0x01, 0x80, 0xFF}, HdrMasks: []int{0x01, 0x80, 0xFF, 0}, Budget: 80 * time.Second,
@@ -260,11 +260,15 @@ func run(prop string) int {
 
 	// ---- phase 1: long histories (crash points of every op) + corruption + enumerated histories
 	tasks = nil
+	if os.Getenv("WALMC_NOG2") != "" {
+		// cost comparison: the check without the second generation
+		cfg.G2Bases, cfg.G2Long = nil, false
+	}
 	for _, lh := range longHists {
 		for op := -1; op <= len(lh.Ops); op++ {
 			lt := task{Kind: "crash", Seg: lh.Seg, Ops: lh.Ops, Long: lh.Name, All: true, FromOp: op, ToOp: op + 1, MaxBits: cfg.MaxBits}
 			if cfg.G2Long {
-				lt.G2 = cfg.G2
+				lt.G2 = g2ForLong(tier)
 			}
 			tb := mk(lt)
 			taskDepth[string(tb)] = -1
@@ -274,13 +278,10 @@ func run(prop string) int {
 	nLongTasks := len(tasks)
 	// second-generation base histories: records larger than a page, every crash point of every
 	// operation, generation 2 from every distinct recovered state (gen2.go)
-	if os.Getenv("WALMC_NOG2") != "" {
-		cfg.G2Bases = nil
-	}
 	for _, b := range cfg.G2Bases {
 		// one task per operation in flight, like the long histories
 		for op := -1; op <= len(b); op++ {
-			tb := mk(task{Kind: "crash", Seg: g2BaseSeg, Ops: b, All: true, FromOp: op, ToOp: op + 1, MaxBits: cfg.MaxBits, G2: cfg.G2})
+			tb := mk(task{Kind: "crash", Seg: g2BaseSeg, Ops: b, All: true, FromOp: op, ToOp: op + 1, MaxBits: g2BaseMaxBits, G2: cfg.G2})
 			taskDepth[string(tb)] = -2
 			tasks = append(tasks, tb)
 		}
@@ -369,7 +370,7 @@ func run(prop string) int {
 	}
 	var caps []string
 	if a.res.Capped > 0 {
-		caps = append(caps, fmt.Sprintf("%d crash points had more than %d undetermined sectors (max %d): all subsets of the last %d x {all,none} of the earlier ones", a.res.Capped, cfg.MaxBits, a.maxSectors, cfg.MaxBits))
+		caps = append(caps, fmt.Sprintf("%d crash points had more than %d undetermined sectors (%d for the second-generation base histories; max %d): all subsets of the last %d (%d) x {all,none} of the earlier ones + the interval families (one contiguous run of lost sectors / one contiguous run of persisted sectors, every position and length)", a.res.Capped, cfg.MaxBits, g2BaseMaxBits, a.maxSectors, cfg.MaxBits, g2BaseMaxBits))
 	}
 	if a.skipped > 0 {
 		caps = append(caps, fmt.Sprintf("internal deadline %v: %d tasks not run", cfg.Budget, a.skipped))
@@ -414,7 +415,7 @@ func run(prop string) int {
 		"evaluations":         a.res.Evals,
 		"distinct_nontrivial": a.res.Mixed + a.res.HitWritten,
 		"rule": "histories = every applicable sequence of length <= depth over the 15 operation shapes (seg 2 KiB; up to core_alphabet_depth over the core alphabet, keys 100+d in histories_by_depth) + hand-shaped long histories (2 and 8 KiB segments), run on the real wal/snap code; " +
-			"crash images = at every Fsync/Fdatasync callback and API return, every per-sector choice between the content durable at the last completed sync of the file and the contents observed since (x namespace before/after, x size-follows-data / zero-filled; with more than sector_subset_bits undetermined sectors: all subsets of the last sector_subset_bits x {all,none} of the earlier ones, listed in caps_hit), de-duplicated by content hash per history; the oracle demands replay(first p records) for some p between the records acknowledged by completed calls and the records written so far; " +
+			"crash images = at every Fsync/Fdatasync callback and API return, every per-sector choice between the content durable at the last completed sync of the file and the contents observed since (x namespace before/after, x size-follows-data / zero-filled; with more than sector_subset_bits undetermined sectors: all subsets of the last sector_subset_bits x {all,none} of the earlier ones + the interval families over all undetermined sectors in file order - sectors [i,j) lost and the rest persisted, or [i,j) persisted and the rest lost, every 0 <= i < j <= n, so every 'leading sectors of the write lost, later ones persisted' image is included - listed in caps_hit), de-duplicated by content hash per history; the oracle demands replay(first p records) for some p between the records acknowledged by completed calls and the records written so far; " +
 			"corruption = every byte offset of every segment (written area + 64) and snapshot file of the long histories' final image x masks; one evaluation = one run of a real reader (OpenForRead, Verify, ValidSnapshotEntries, Open+ReadAll[+Repair], Load, LoadNewestAvailable, reopen after append). " +
 			"non-trivial = distinct crash images that differ from both the all-old and the all-new neighbour image (torn images) + corruption cases whose flipped byte lies in the written area; " +
 			g2Describe(cfg.G2),
@@ -466,6 +467,7 @@ func run(prop string) int {
 		"gen2_crash_images_torn":                 a.g2.Torn,
 		"gen2_crash_images_fully_synced":         a.g2.Strict,
 		"gen2_sector_subset_bits":                cfg.G2.Bits,
+		"gen2_base_sector_subset_bits":           g2BaseMaxBits,
 		"gen2_max_undetermined_sectors":          a.g2.MaxSectors,
 		"gen2_records_over_4096B_written":        a.g2.BigRecs,
 		"gen2_ops_skipped_inapplicable":          a.g2.SkippedOps,
